@@ -642,6 +642,7 @@ def srvLine (st : SrvSt) (ts : List Tok) : SrvSt :=
           let m := (strOf msg).getD ""
           let mon := if (m.splitOn "election id at quiescence").length > 1 || (m.splitOn "primary at quiescence").length > 1 || (m.splitOn "was told").length > 1 then "c05" else "c11"
           let st := if (m.splitOn "not a state the table ever had").length > 1 then st.monfail "c07" m else st
+          let st := if (m.splitOn "without answering").length > 1 then st.monfail "c06" ("unanswered: " ++ m) else st
           (st.monfail mon m).monfail "c11" m
       | _ => bad st
     else if c = "hang" then
